@@ -134,6 +134,9 @@ def m_live(viol, world, layer):
     n = 0
     for s in world.stacks:
         n += 1
+        for (t, tmo, d, what) in s.sleep_problems[:1]:
+            viol.add('sleeps_past_deadline', '%s: at %.4f the job thread went to sleep on an empty wake-up queue for %s s although %s is due at %.4f (nothing will wake it for that)'
+                     % (s.name, t, 'ever' if tmo is None else '%.4f' % tmo, what, d), layer=layer, what=what.split('[')[0].split(' (')[0])
         if s.job_alive() and getattr(s.job_state, 'blocked_in_put', False):
             viol.add('job_blocked', '%s: job thread is blocked in put() on a full bounded queue (it is the only consumer: dead-lock)' % s.name, layer=layer)
         elif s.job_alive() and not s.job_parked_with_timeout():
